@@ -12,3 +12,4 @@ CFG = dict(
      level_note="Trusts the Go runtime, rapid, and the harness' scripted reader (which obeys the io.Reader contract).",
      timeout_quick=300, timeout_thorough=1800)
 CFG["rule"] += ' Added after independently written breaking changes: Source errors are sticky or one-shot (reported by one Read call only), alone or with data.'
+CFG["rule"] += ' After ErrStreamTooLarge three more Reads must each return (0, ErrStreamTooLarge). Source style "HTTP body already read and closed by its owner" (Read reports http.ErrBodyReadAfterClose) in the Read-path cases of MultiReaderCloser: no bytes, and the stream must not close it a second time.'
